@@ -268,7 +268,7 @@ pub fn run(ctx: &mut Ctx) {
     let names = common_safe_names();
     let g = Gen { names: &names, max_depth: 7, max_arity: 6, placeholders: true, set_bias: false };
     let mut rng = ctx.rng(0xC14);
-    let n = ctx.share(120_000, 5_000_000);
+    let n = ctx.share(1_000_000, 15_000_000);
     for i in 0..n {
         if ctx.out_of_time() {
             ctx.report.inconclusive.push(format!("random workload cut at {} of {}", i, n));
@@ -279,7 +279,7 @@ pub fn run(ctx: &mut Ctx) {
         check(ctx, &t, "random");
     }
     // lexical terms in the three vocabularies
-    let m = ctx.share(60_000, 2_000_000);
+    let m = ctx.share(400_000, 6_000_000);
     for i in 0..m {
         if ctx.out_of_time() {
             break;
